@@ -33,3 +33,63 @@ def base16 (digit : Nat → UInt8) (s : Bytes) : Bytes :=
 
 end Spec
 end TlxVerif.C19
+
+namespace TlxVerif.C19
+open TlxVerif.C18 (Bytes npos)
+namespace Spec
+
+/-! ### trim: remove the bytes of the drop set from the left / the right / both ends -/
+
+def trimLeft (drop s : Bytes) : Bytes := s.dropWhile fun c => drop.contains c
+def trimRight (drop s : Bytes) : Bytes := (s.reverse.dropWhile fun c => drop.contains c).reverse
+def trim (drop s : Bytes) : Bytes := trimRight drop (trimLeft drop s)
+
+end Spec
+end TlxVerif.C19
+
+namespace TlxVerif.C19
+open TlxVerif.C18 (Bytes npos)
+namespace Spec
+
+/-! ### replace, split: direct recursive definitions ("leftmost occurrence first") -/
+
+/-- replace the leftmost occurrence of `needle` -/
+def replaceFirst (needle instead : Bytes) : Bytes → Bytes
+  | [] => []
+  | c :: t =>
+    if needle.isPrefixOf (c :: t) then instead ++ (c :: t).drop needle.length
+    else c :: replaceFirst needle instead t
+
+/-- replace every occurrence of a non-empty `needle`, scanning from the left and continuing
+behind each replaced occurrence -/
+def replaceAll (needle instead : Bytes) (s : Bytes) : Bytes :=
+  if _h : needle = [] then s
+  else
+    match s with
+    | [] => []
+    | c :: t =>
+      if needle.isPrefixOf (c :: t) then instead ++ replaceAll needle instead ((c :: t).drop needle.length)
+      else c :: replaceAll needle instead t
+termination_by s.length
+decreasing_by
+  · have : 0 < needle.length := List.length_pos_iff.mpr h
+    simp only [List.length_drop, List.length_cons]; omega
+  · simp
+
+/-- position of the leftmost occurrence of `sep` -/
+def firstOcc (sep : Bytes) : Bytes → Option Nat
+  | [] => none
+  | c :: t => if sep.isPrefixOf (c :: t) then some 0 else (firstOcc sep t).map (· + 1)
+
+/-- split at the occurrences of a non-empty separator, leftmost first, into at most `limit`
+parts (the last part keeps the remaining text) -/
+def split (sep : Bytes) : Nat → Bytes → List Bytes
+  | 0, _ => []
+  | 1, s => [s]
+  | n + 2, s =>
+    match firstOcc sep s with
+    | none => [s]
+    | some i => s.take i :: split sep (n + 1) (s.drop (i + sep.length))
+
+end Spec
+end TlxVerif.C19
